@@ -64,6 +64,10 @@ CHECKS = {
              text="TLC exhausts the reassembler state machine (buffer/readN/readingHdr) for every delivery segmentation of three frames and every handler completion order with limits 1 and 2 (decoded exactly once in order, one response per query, over-limit queries refused not dropped) and rejects a sticky-header variant; all 4096 sets of cut-point classes (inside the prefix, between prefix and body, inside the body, at the frame end; quick: a seeded 1/27 sample) plus byte-at-a-time, single-write and random cuts of 2-8 (thorough: 50) pipelined queries are written to the real tcp, gnet and tls listeners while the scripted upstream finishes handlers out of order; TLC splits each recorded return stream into frames, decodes every body with Wire.tla and checks exact framing, exactly one response per query ID, the echoed question per ID (no interleaving) and REFUSED only beyond max_concurrent_queries.",
              note="Kernel coalescing of segments costs coverage only.",
              ref="DESIGN.md section 4 C13"),
+ "C17": dict(technique="TLA+ decision tables (dial target / TLS server name / HTTP Host; certificate acceptance; client-certificate verification) enumerated by TLC (608 address rows, sanity theorems) + every row instantiated with concrete strings on the real upstream.NewUpstream with the socket layer's Control hook recording the connect target + fake DoT/DoH/DoQ servers and real TLS listeners for the certificate matrices + TLC trace validation",
+             text="TLC enumerates scheme (10, incl. omitted and helper schemes) x URL host form (IPv4, bracketed IPv6 compressed and expanded, domain) x port presence x dial_addr form (none, v4, v4:port, v6, [v6]:port, domain, domain:port, @unix) and checks that the port is explicit or the scheme default and that SNI/Host never depend on dial_addr; each row is passed to the real NewUpstream and one exchange is attempted while the Control hook (UDP observation sockets for QUIC/HTTP3) records where the socket layer connects; 5 certificate kinds x CA set/unset x skip-verify x {tls, tls+pipeline, https, quic} run against fake servers (recording SNI and Host) through the router's own makeTlsConfig, and tls/https/quic listeners with verify_client_cert on/off are queried with no / right-CA / other-CA client certificates; TLC checks every observation against Target, Sni, TlsAccept and Serve.",
+             note="Decision-table conformance; X.509 path validation is Go's crypto/tls; unreachable IPv6 literals cannot be observed for quic/h3.",
+             ref="DESIGN.md section 4 C17"),
 }
 
 PENDING_REASON = "check under construction in this round (see DESIGN.md section 4); not claimed until its machinery is committed and passes on the unchanged tree"
